@@ -337,6 +337,12 @@ def run(cfg, ops=None, rng=None):
             res.sigs.add(stable_hash((pre_sig, struct.op_brief(op), struct.fired_brief(fa), na)))
             h.update(repr((step, struct.op_brief(op), na, nb, struct.fired_brief(fa), len(la), len(lb))).encode())
             _probe_violation(prop, step, op, "structural call")
+            if na == "RecursionError" or nb == "RecursionError":
+                # stack exhaustion (the unbounded rollback recursion of finding C03-4): where it strikes depends
+                # on the number of helper frames of either implementation, which no property pins - the two
+                # universes may legitimately end up in different states, so the run ends without a verdict
+                res.bump("runs_ended_by_stack_exhaustion")
+                break
             if op["op"] == "new":
                 model.add(FAMILY[op["cls"]])
             bad = invariants.check_forest(wa)
